@@ -120,6 +120,17 @@ def Ref.step [DecidableEq V] (s : Ref K V) : Op K V → Ref K V × Out K V (Ref 
   | .items => (s, .items s.ents)
   | .eq o => (s, .bool (s.eqArg o))
   | .ne o => (s, .bool (!s.eqArg o))
+  | .updateFail l => (s.assignAll l, .raised)
+  | .eqOther => (s, .bool false)
+  | .neOther => (s, .bool true)
+
+/-- reading another reference cache `t` into `s`: one lookup of `t` and one assignment to `s` per key -/
+def Ref.updFrom (s t : Ref K V) : List K → Ref K V × Ref K V × Bool
+  | [] => (s, t, true)
+  | k :: ks =>
+    match t.lookup k with
+    | (t', .val v) => Ref.updFrom (s.assign k v) t' ks
+    | (t', _) => (s, t', false)
 
 def Ref.argOf (w : List (Ref K V)) (i j : Nat) : Arg K V :=
   if i = j then .self else match w[j]? with
@@ -142,6 +153,14 @@ def Ref.wstep [DecidableEq V] (w : List (Ref K V)) : WOp K V → List (Ref K V) 
     match w[i]? with
     | none => (w, .none)
     | some c => (w, (Ref.step c (.ne (Ref.argOf w i j))).2)
+  | .updc i j kw =>
+    match w[i]?, w[j]? with
+    | some c, some o =>
+      if i = j then (w, .none)
+      else match Ref.updFrom c o (keys o.ents) with
+        | (c', o', true) => ((w.set i (c'.assignAll kw)).set j o', .none)
+        | (c', o', false) => ((w.set i c').set j o', .keyError)
+    | _, _ => (w, .none)
 
 def Ref.wrun [DecidableEq V] (w : List (Ref K V)) (ops : List (WOp K V)) : List (Ref K V) :=
   ops.foldl (fun w op => (Ref.wstep w op).1) w
